@@ -46,6 +46,15 @@ class C16(PropBase):
                     if cands:
                         e, al = rng.choice(cands)
                         q = '/'.join(e.split('/')[:-1] + [al]) if rng.random() < 0.6 else '/'.join(e.split('/')[:-1]) + '?' + self.leaf_key(ctx, v, e) + '=' + al
+                if rng.random() < 0.08:
+                    q = v.sid(v.any_type(rng), rng)      # a plain Sid that (most probably) does not exist: no record, get_one gives nothing
+                if rng.random() < 0.15:
+                    # overlapping alternatives: a value and '*' (or a partial star) at one level - still ONE record per Sid
+                    e = rng.choice(allsids).split('/')
+                    i = rng.randrange(len(e))
+                    if e[i] and not any(ch in e[i] for ch in '*>,?:'):
+                        e[i] = e[i] + ',' + rng.choice(['*', e[i][0] + '*'])
+                        q = '/'.join(e)
                 attrs = rng.choice([[], [], ['a'], ['a', 'zz'], ['sid'], ['b', 'a', 'c']])
                 enc = rng.choice(['str', 'uri', 'none', 'none', 'last'])
                 m = {'u': ui, 'q': q, 'attrs': attrs, 'enc': enc}
@@ -99,7 +108,9 @@ class C16(PropBase):
         if case.op == 'get_and_find':
             if impl[0] != 'ok':
                 return None if impl[1] == 'SpilException' else 'get / find raised %r' % (impl,)
-            found, records, singles = impl[1]
+            found, records, singles = impl[1][:3]
+            if len(impl[1]) > 3 and impl[1][3] != (records[0] if records else []):
+                return 'get_one(%r) = %r is not the first record of get() %r' % (case.args[1], impl[1][3], records[:1])
             if len(found) != len(records):
                 return 'get(%r) yields %d records, find yields %d Sids' % (case.args[1], len(records), len(found))
             attrs, enc = case.meta['attrs'], case.meta['enc']
